@@ -6,7 +6,7 @@ ENUM = "solver-enumerated selector space (CrossHair/z3 path enumeration; 'Confir
 CLAIMED = {
     "C04": dict(text="all histories of 3 connection operations (+completion) x {call, setattr, connect, replace, disconnect} x three ports (bus port, two bundle ports of one type) x 8 / 6 kinds of connectable, plus a further instance taking a reference to the edited port, on an Instance (thorough: also InstanceArray); the exported package must equal the reference semantics of the FINAL mapping only",
                 note="all inputs are selectors: the solver's role is exhaustive enumeration; oracle vlib/dsl.py", tech=ENUM),
-    "C07": dict(text="all histories of 2 (quick) / 3 calls x {elaborate, to_proto, netlist} x any non-empty subset of a 4-module DAG (shared sub-modules, bundle ports, anonymous bundle, port references incl. a pair of leaves joined by a reference only, no-connected bundle port), in either order, alone or as a list; bytes equal those of a twin without history; second export identical; late parents see bundle-level ports; elaborated modules refuse additions",
+    "C07": dict(text="all histories of 2 (quick) / 3 calls x {elaborate, to_proto, netlist} x any non-empty subset of a 4-module DAG (shared sub-modules, bundle ports, anonymous bundle, port references incl. a pair of leaves joined by a reference only, no-connected bundle port), in either order, alone or as a list; bytes equal those of a twin without history; second export identical; late parents (direct or through Wrapper) see bundle-level ports; elaborated modules refuse additions; two same-named modules from two python files elaborated in any order before their common top",
                 note="separate processes are approximated by resetting hdl21's process-global caches and building fresh objects", tech=ENUM),
     "C08": dict(text="a raising user pass at every position of the default pass list x every module of a shared DAG, every C02 fault class detected inside checking and rewriting passes (offending module held as an instance or an instance array), and a generator body raising 1..3 times (alone, after a circular-generator error, or retried inside a catching body); continuations: retry unchanged (same error), unrelated design, design sharing sub-modules, repair and retry, parent's instance of the offending module replaced by a valid module and re-exported (must equal a twin with the same edit history); no later call returns a package a fresh twin would not give",
                 note="selectors only; 'same error' compares exception type and message with file paths / addresses removed", tech=ENUM),
@@ -18,15 +18,15 @@ CLAIMED = {
                 note="values realise at pydantic / protobuf / decimal: enumeration inside the stated boxes, no generalisation", tech=ENUM),
     "C15": dict(text="selection by type / family / threshold over the whole enum product for 4 PDKs; every entry of every Sky130 / GF180 device table by model name with sizes / multiplier given or defaulted (valid, netlists, compile twice = once, equal params -> same call); a shared 3-level hierarchy compiled directly / by default / by name / by module / by name or module while another PDK is the default (each equal to the PDK's own compile()); the same model compiled again with another multiplier or width in one process; logic-cell libraries (1/16 quick, all 3148 thorough)",
                 note="finite tables: exhaustive enumeration; 3 known findings (devices with more terminals than the generic primitive)", tech=ENUM),
-    "C16": dict(text="hierarchies of depth 2-4 with shared leaves, primitive and external-module leaves, bus and scalar nets, designer signal / instance names drawn from candidate sets containing the documented ':'-joined path names: only leaf instances, one per leaf, ports unchanged, leaf-level partition of flatten(m) equals that of m; rejection only for a real name clash; crashes are violations",
+    "C16": dict(text="hierarchies of depth 2-4 with shared leaves, primitive and external-module leaves, bus and scalar nets, designer names of top-level signals, ports, sub-module instances and leaves drawn from candidate sets containing the documented ':'-joined path names, middle-module ports named like the internal nets below them: only leaf instances, one per leaf, ports unchanged, leaf-level partition of flatten(m) equals that of m; rejection only for a real name clash; crashes are violations",
                 note="names come from candidate sets (selectors), not from symbolic strings", tech=ENUM),
     "C17": dict(text="Sims of up to 2 (quick) / 3 attributes over 17 attribute kinds (8 analyses incl. nested sweep / Monte-Carlo, options, include, lib, save in all 6 target forms, measurements, parameters, literals), 3 sweep kinds, 4 numeric forms x 6 prefixes, 3 construction styles, alone or in lists sharing or not sharing the testbench; independent expected-SimInput oracle; testbench interface",
                 note="selectors only; float fields compared with the float nearest the exact rational value", tech=ENUM),
     "C02": dict(text="22 single-fault classes planted by a symbolic fault planter (fault class x location x delta x width x array size) into a valid hierarchical design with bundle port, array, pair, port reference and no-connect; whether the mutated design really is ill-formed is decided by the independent validity predicate vlib.dsl.ref_valid; post: elaborate, to_proto and netlist each raise",
                 note="trusted: ref_valid (transcription of the property's list), CrossHair/z3; name clashes are checked on to_proto/netlist only (the export name space)", tech=E1),
-    "C05": dict(text="one harness per naming site (named / unnamed / shared no-connect, implicit port-reference signal, flattened bundle member, array element, pair member, underscore retry) with the DESIGNER'S NAME A SYMBOLIC STRING (any characters, length <= 3 quick / 8 thorough; the designer's object a signal, a port or an instance) and both declaration orders; identity-level post-condition on the elaborated objects; exported partition checked in the concrete replay",
+    "C05": dict(text="one harness per naming site (named / unnamed / shared no-connect, implicit port-reference signal, flattened bundle member and mutually colliding members, array element, pair member, members of an instance bundle over a custom bundle, underscore retry) with the DESIGNER'S NAME A SYMBOLIC STRING (any characters, length <= 3 quick / 8 thorough; the designer's object a signal, a port or an instance) and both declaration orders; identity-level post-condition on the elaborated objects; exported partition checked in the concrete replay",
                 note="protobuf rejects proxy strings: package-level observation only in replay; trusted CrossHair string theory (z3 seq)", tech=E1),
-    "C09": dict(text="injectivity of generated names through the public ExternalModuleCall.name with SYMBOLIC STRING parameter values (printable ASCII, repr() stubbed exactly for that alphabet) plus solver-enumerated adversarial words (quotes, backslash, 'None', newline, non-ASCII); the hashed naming path over confusable optional values (None, 0, 0.0, '', False; direct or nested); memoisation across call forms; names independent of 120 call orders of Series/MosStack/handing-on generators",
+    "C09": dict(text="injectivity of generated names through the public ExternalModuleCall.name with SYMBOLIC STRING parameter values (printable ASCII, repr() stubbed exactly for that alphabet) plus solver-enumerated adversarial words (quotes, backslash, 'None', newline, non-ASCII); the hashed naming path over confusable optional values (None, 0, 0.0, '', False; direct or nested); floats agreeing in 6 / 15 / 16 digits; Module-valued parameters of one simple name; memoisation across call forms; names independent of 120 call orders of Series/MosStack/handing-on generators",
                 note="repr() stub is exact only on the admitted alphabet (pre-condition); md5 collision-freeness assumed past the 128-character switch", tech=E1),
     "C18": dict(text="all 3-operation edit histories (setattr / add(name=) / add) over a 2-3 letter alphabet and 7 value kinds on a Module, and the analogue on a Bundle: coherence invariant after every prefix and exported package = current objects; documented rejections; three class-body bindings (values anonymous or pre-named, one object under two names) equal to the procedural assignments",
                 note="all inputs are selectors: the solver's role is exhaustive enumeration (each path runs concretely)", tech=E1),
@@ -38,7 +38,7 @@ CLAIMED = {
                 note="trusted: vlib/pkgread.check_package; concrete seeds are not solver-decided; 1 known finding (same-named external modules of different domains are refused by the vlsirtools netlisters)", tech=E1),
     "C11": dict(text="to_proto(from_proto(P)) == P as a post-condition on every design-template path, plus parameter space (10 device kinds incl. controlled sources, pulse sources with unset / literal fields, enums x mantissa x exponent x 21 prefixes, solver-enumerated), slice/concat index conventions incl. strided and reversed parts (symbolic width and bounds), every nested slice / concatenation path of C03 and external-module headers (14 spice types x directions x widths x order)",
                 note="values realise at the pydantic/protobuf boundary: bounded-exhaustive enumeration by the solver, no generalisation beyond the box", tech=E1),
-    "C03": dict(text="index/slice normalisation kernels decided over UNBOUNDED integers (w, a, b) for each constant step in +-1..+-6; nested slice/concat/reference resolution through the real elaborator+exporter compared with Python list slicing inside a bounded box (W<=3); every in-range slice selecting a bit (any step) must be accepted",
+    "C03": dict(text="index/slice normalisation kernels decided over UNBOUNDED integers (w, a, b) for each constant step in +-1..+-6; nested slice/concat/reference resolution through the real elaborator+exporter compared with Python list slicing inside a bounded box (W<=3, 12 expression families incl. slices of port / bundle references); every in-range slice selecting a bit (any step) must be accepted",
                 note="trusted: CrossHair 0.0.110 + prelude work-arounds (pydantic validation stub, format stub), z3, closed-form CPython slice oracle, pkg_nets reader", tech=E1),
     "C14": dict(text="the real source of hdl21/prefix.py executed symbolically over a Decimal model (two-integer coefficient/exponent, 28-digit context) with symbolic mantissas; unary ops for 25-digit mantissas, binary ops and comparisons in stated smaller boxes; QF_FP lemma for float() when computed by float multiplication; a model-independent concrete grid on the real library as a fallback",
                 note="trusted: Decimal model (validated differentially against the real library on every run: gate), CrossHair/z3, CPython float(Decimal) correct rounding", tech=E1 + "; prefix.py source exec'ed over a Decimal model; z3 QF_FP query for float()"),
@@ -67,7 +67,7 @@ def main():
             c = CLAIMED[i]
             man["checks"].append({
                 "property_id": i, "quick_cmd": f"./check {i} --tier quick", "thorough_cmd": f"./check {i} --tier thorough",
-                "evidence_file": f"evidence/{i}.json", "replay_cmd_template": "cat {path}", "engine": "E1-crosshair",
+                "evidence_file": f"evidence/{i}.json", "replay_cmd_template": "python3 tools/replayfile.py {path}", "engine": "E1-crosshair",
                 "level_claimed": {"category": "other", "text": "bounded symbolic execution of the real code; 'Confirmed over all paths' per partition = holds for every input of that partition. " + c["text"],
                                   "design_ref": f"DESIGN.md section 5, {i}"},
                 "level_note": c["note"], "technique": c["tech"]})
